@@ -250,6 +250,12 @@ func (p *p03) mkAlt() p03Tx {
 	case 0:
 		tx, d = p.world.BVM(k, harness.AddrInterchain, "HandleIBTPData", pb.Bytes(raw)), "Interchain.HandleIBTPData(next request of victim)"
 	case 1:
+		if r.Intn(2) == 0 {
+			// in the name of a service of the other (registered) BitXHub, towards a contract of this relay chain
+			f, t := forgedHubPair()
+			tx, d = p.world.BVM(k, harness.AddrBroker, "EmitInterchain", pb.String(f), pb.String(t), pb.String("f,cb,rb"), pb.String("x"), pb.String("y"), pb.String("z")), "InterBroker.EmitInterchain(service of the other hub -> contract of this hub)"
+			break
+		}
 		tx, d = p.world.BVM(k, harness.AddrBroker, "EmitInterchain", pb.String(from), pb.String(to), pb.String("f,cb,rb"), pb.String("x"), pb.String("y"), pb.String("z")), "InterBroker.EmitInterchain(victim from,to)"
 	case 2:
 		tx, d = p.world.BVM(k, harness.AddrBroker, "InvokeInterchain", pb.Bytes(raw)), "InterBroker.InvokeInterchain(ibtp)"
@@ -257,6 +263,12 @@ func (p *p03) mkAlt() p03Tx {
 		tx, d = p.world.BVM(k, harness.AddrBroker, "InvokeReceipt", pb.Bytes(raw)), "InterBroker.InvokeReceipt(ibtp)"
 	}
 	return p03Tx{tx: tx, alt: true, desc: "alt:" + d}
+}
+
+// forgedHubPair: a service of the registered remote BitXHub as source, a contract hosted on this relay chain as
+// destination - what the broker would emit if it let anybody speak for the other hub.
+func forgedHubPair() (string, string) {
+	return hubID + ":chainX:svc", harness.BxhID + ":" + harness.BxhID + ":" + harness.AddrStore.String()
 }
 
 func (p *p03) govBlock(txs ...pb.Transaction) ([]*pb.Receipt, error) {
@@ -403,6 +415,10 @@ func proof03Workload(args []string) int {
 			}
 			// the victim pair of the alternative-entry attempts is watched from the start
 			p.m.Pairs[harness.FullID(harness.ChainA, "s1")+"|"+harness.FullID(harness.ChainB, "s1")] = &model.IxPair{}
+			{
+				f, t := forgedHubPair()
+				p.m.Pairs[f+"|"+t] = &model.IxPair{}
+			}
 			for b := 0; b < 22; b++ {
 				// rule history events, alone in their blocks
 				switch rng.Intn(14) {
@@ -413,7 +429,8 @@ func proof03Workload(args []string) int {
 					continue
 				case 1:
 					if b > 12 {
-						c := []string{"chainT", "chainU"}[rng.Intn(2)]
+						// chainW too: its former master rule would still verify, but a logged-out chain has no rule bound
+						c := []string{"chainT", "chainU", "chainW", "chainW"}[rng.Intn(4)]
 						p.logoutChain(c)
 						p.blocks = append(p.blocks, "logout "+c)
 						continue
